@@ -81,7 +81,17 @@ without alpha channel, an output cart in another directory than the main program
 OUT named after the options, empty .lua sources, goto labels with glyphs, block comments that the formatter moves left,
 `if (...)` with a vararg condition, `return function`, an empty `else`, decimal literals with leading zeros, column numbers after
 a long string, `require()` cycles, game-loop functions with parameters, argparse `nargs`, `re.sub` count/flags mix-ups,
-`bytes.lstrip` with a set, lookup tables one entry short, late-binding closures in loops.
+`bytes.lstrip` with a set, lookup tables one entry short, late-binding closures in loops, strings that are mostly escapes
+(`\\n`, quotes), reading a cart with `do_includes=False`, streams that are not at position 0 or cannot seek, a line that begins
+with a one-line block comment, writers whose output depends on `lua_writer_args`, a Game whose `filename` names no file,
+advisory locks on the destination, a carts-folder lookup for bare cart names, load path entries without `?`, `package.path`
+assignments in the program, `#include`-looking lines inside comments or strings of a .lua source, require() as an assignment
+target or operand, comments stripped from packages, glyphs that are whole tokens (`btn(x)` button names), .p8 sections that end
+early, titles beginning with `keep` or other directive-like words, names beginning with dots, `-->8` at the end of a code line,
+upper-case `0X` / `E` in numerals, the last sfx pattern (63), music flag bits, the first code token being an identifier,
+members of kept tables, dispatch tables with a missing entry, `^^`, the field order of AST nodes, printast, luafmt falling back
+to another formatter, the line break after `[[`, whitespace at line ends in the .p8 reader, a digit 9 after a numeric escape,
+an escaped backslash before a closing quote, `.png` spritesheets as --gfx sources, sfx filter bits.
 Look for something else, for example: a mask, shift or bit position that is off by one; signed/unsigned or 7-bit/8-bit handling;
 an inclusive/exclusive range end; integer division or rounding; the order in which two sections / options / passes are applied;
 an interaction between two command-line options or two library features that are each fine alone; a module-level table or
